@@ -230,7 +230,7 @@ def gen_npd_class(rng, idx):
     zin = []
     for fi in range(F):
         z = np.asarray(fz0[fi] if fz0 is not None else z0, dtype=complex)
-        for _ in range(30):
+        for _ in range(200):
             s = (rng.standard_normal((n, n)) + 1j * rng.standard_normal((n, n)))\
                 * rng.uniform(0.05, 0.45) / math.sqrt(n)
             try:
@@ -245,7 +245,9 @@ def gen_npd_class(rng, idx):
             if ok:
                 break
         else:
-            raise RuntimeError("cannot draw an NPD network")
+            # this configuration rarely yields a network with input
+            # impedances well away from the axes: draw another class
+            return gen_npd_class(rng, idx)
         sdata.append(s)
         zin.append(zi)
         data.append(zi.reshape(1, n) if xtype == "ZIN" else m)
